@@ -55,3 +55,12 @@ Proof.
   unfold first_unit. destruct (find (unit_matches (trim b)) us) as [u|] eqn:E; [|reflexivity].
   apply find_some in E. destruct E as [Hin Hm]. rewrite forallb_forall in Hn. specialize (Hn u Hin). rewrite Hm in Hn. discriminate.
 Qed.
+
+(* the public unit! arm (the one downstream crates use) forwards every conversion term, labels and attributes to the @units arm
+   (Gen/StorageSrc.v is regenerated from src/unit.rs on every run) *)
+From Coq Require Import String.
+From UomV Require Import Gen.StorageSrc Spec.StorageTie.
+Theorem c19_public_unit_arm_forwards_everything :
+  rows_eqb (class_rows "unit!:public arm" src_storage) (class_rows "unit!:public arm" expected_storage) = true
+  /\ List.length (class_rows "unit!:public arm" src_storage) = 1%nat.
+Proof. split; vm_compute; reflexivity. Qed.
